@@ -172,6 +172,51 @@ def mon_c01(im, p):
     return {'fail': fails, 'nontrivial': head == 'err opslimit'}
 
 
+def mon_c01_late(im, p):
+    """host iterables that are not lists or dicts (tuples, sets, ranges, dict views, generators, strings) handed to the builtins
+    that call a lambda per element: when eval returns, the evaluation is OVER - consuming the result starts no further operation -
+    and the operations started during the call obey the budget"""
+    ns = im.ns
+    fails = []
+    mk = {'tuple': lambda: (1, 2, 3, 4, 5, 6), 'set': lambda: {1, 2, 3, 4, 5, 6}, 'range': lambda: range(1, 7), 'keys': lambda: {1: 'a', 2: 'b', 3: 'c'}.keys(),
+          'values': lambda: {'a': 1, 'b': 2, 'c': 3}.values(), 'items': lambda: {'a': 1, 'b': 2}.items(), 'gen': lambda: (i for i in range(1, 7)),
+          'frozenset': lambda: frozenset([1, 2, 3, 4]), 'str': lambda: 'abcdef', 'iter': lambda: iter([1, 2, 3, 4, 5, 6]), 'list': lambda: [1, 2, 3, 4, 5, 6]}
+    for kind in p['kinds']:
+        for N in p['budgets']:
+            names = {'t': mk[kind]()}
+            res, outcome = None, 'ok'
+            with EvalTrace(ns) as tr:
+                try:
+                    res = im.p.eval(p['src'], names, max_ops_evaluated=N)
+                except ns.exc.ParserError as e:
+                    outcome = type(e).__name__
+                except Exception as e:
+                    outcome = type(e).__name__
+                during = tr.entries
+                # the host now reads the result (and whatever the program left in the names mapping)
+                late_err = None
+                try:
+                    for v in [res] + [names[k] for k in names if k != 't']:
+                        if hasattr(v, '__next__') or type(v).__name__ in ('map', 'filter', 'zip', 'generator', 'reversed', 'enumerate'):
+                            list(v)
+                        elif isinstance(v, (list, tuple)):
+                            for x in v:
+                                if hasattr(x, '__next__'):
+                                    list(x)
+                except Exception as e:
+                    late_err = type(e).__name__
+                after = tr.entries - during
+            if after > 0 or late_err == 'OpsExecutionLimitExceededError':
+                fails.append({'signature': 'evaluation-continues-after-return', 'what': f'{p["src"]!r} with t = a {kind}, N={N}: eval returned ({outcome}) after {during} '
+                              f'operations, and reading its result started {after} more' + (f' and raised {late_err}' if late_err else ''), 'input': dict(p, kinds=[kind], budgets=[N])})
+                break
+            if during > N or (outcome == 'ok' and during >= N):
+                fails.append({'signature': 'budget:over-N-with-host-iterable', 'what': f'{p["src"]!r} with t = a {kind}: {during} operations started with N={N} ({outcome})',
+                              'input': dict(p, kinds=[kind], budgets=[N])})
+                break
+    return {'fail': fails, 'nontrivial': True}
+
+
 def mon_c01_cross(im, p):
     """a lambda defined by an earlier eval and invoked by a later one with budget N (D9)"""
     ns = im.ns
@@ -976,6 +1021,30 @@ def mon_c09_chain(im, p):
     return {'fail': fails, 'nontrivial': True}
 
 
+def mon_c09_hostops(im, p):
+    """and / or / if-else over HOST-supplied operands of every type (floats, ints, bools, None, strings, containers, Decimals in
+    odd spellings): the value is the deciding operand ITSELF - the same object, not a converted or re-created equal"""
+    fails = []
+    vals = [0.1, 0.0, 2.5, -0.0, 5, 0, True, False, None, 'a', '', [1], [], {}, {'k': 1}, D('0.10'), D('0E+2'), D('-0'), (1,), (), float('inf'), 10 ** 30]
+    for i, x in enumerate(vals):
+        for j, y in enumerate(vals):
+            if (i + j) % p['stride'] != p['phase']:
+                continue
+            for src, want in (('x or y', x if x else y), ('x and y', y if x else x), ('x if x else y', x if x else y), ('y if x else x', y if x else x),
+                              ('(x or y) or y', (x if x else y) if (x if x else y) else y), ('[x or y][0]', x if x else y)):
+                names = {'x': x, 'y': y}
+                try:
+                    got = im.p.eval(src, names, max_ops_evaluated=100)
+                except Exception as e:
+                    fails.append({'signature': 'lazy-op-raises', 'what': f'{src} with x={x!r}, y={y!r} raised {type(e).__name__}', 'input': p})
+                    return {'fail': fails, 'nontrivial': True}
+                if got is not want:
+                    fails.append({'signature': 'deciding-operand-not-itself', 'what': f'{src} with x={x!r} ({type(x).__name__}), y={y!r} ({type(y).__name__}) returned '
+                                  f'{got!r} ({type(got).__name__}), which is not the deciding operand object', 'input': p})
+                    return {'fail': fails, 'nontrivial': True}
+    return {'fail': fails, 'nontrivial': True}
+
+
 def mon_c09_hof(im, p):
     """inside the callback of map / filter / sorted / reduce every operand, call argument and branch is evaluated once PER
     APPLICATION of the callback: sub-expressions that do not mention the parameter are not constants - they may read state a
@@ -1257,6 +1326,15 @@ def _do_call(im, host, call, maps):
                     break
                 got.append(n)
             return 'names ' + repr(got)
+        if kind == 'evalast':
+            # eval with host-supplied ast_names: [name, [params], body text] triples, parsed by this parser
+            names = None if call[2] == 'none' else maps[call[2]]
+            A = ns.ast_ops
+            astn = {n: A.LambdaOp(args=[A.NameOp(q) for q in ps], expr=im.p.parse(body)) for n, ps, body in call[5]}
+            evalimpl.set_random(ns, evalimpl.FakeRandom(int(call[4])))
+            kw = {} if call[3] == 'default' else {'max_ops_evaluated': int(call[3])}
+            res = im.p.eval(call[1], names, ast_names=astn, **kw) if names is not None else im.p.eval(call[1], ast_names=astn, **kw)
+            return 'ok ' + _canon(ns, host, res) + ' ;; ' + (_canon(ns, host, names) if names is not None else '-')
         if kind == 'names2':
             # one list_names call consumed in two steps; in between, the caller's oldest abandoned generator is discarded (closed, as
             # garbage collection would do at some arbitrary moment).  No other call on the parser happens in between.
@@ -2167,6 +2245,17 @@ def mon_c20(im0, p):
     m = re.search(r'at line (\d+)$', msg)
     if not m or int(m.group(1)) != line:
         fails.append({'signature': 'wrong-line', 'what': f'offending token at offset {pos} stands on physical line {line}; message {msg[:200]!r}', 'input': p})
+    if src == src.rstrip() and not fails:
+        # eval reads the same text (it only strips trailing blank space): the same message, through the other entry point
+        try:
+            im.p.eval(src, {}, max_ops_evaluated=50)
+            emsg = '<returned normally>'
+        except ns.exc.ParserError as e:
+            emsg = str(e)
+        except Exception as e:
+            emsg = '<' + type(e).__name__ + '>'
+        if emsg != msg:
+            fails.append({'signature': 'eval-reports-differently', 'what': f'parse reports {msg[:160]!r}, eval of the same text {emsg[:160]!r}', 'input': p})
     val = sqimpl.Impl._last_err_val
     if isinstance(val, str) and val not in ('\n', '\r\n') and val not in msg:
         fails.append({'signature': 'token-text-missing', 'what': f'the message {msg[:120]!r}… does not contain the text of the offending token '
